@@ -689,6 +689,11 @@ def run(ctx):
         if fn == 'iau' and c['form'] == 'scalar':
             iau_scalar.append((c, exp))
         good, finding = judge(c, exp, obs)
+        if fn == 'contig' and not exp['open'] and len(exp['val']) > 1 and good:
+            # informational: which of several equally long runs is returned is left open by the docstring
+            which = 'first' if tuple(obs['val']) == min(exp['val']) else 'other'
+            ties = ctx.cov.setdefault('contig_ties_returned', {'first': 0, 'other': 0})
+            ties[which] += 1
         if fn not in sampled:
             sampled.add(fn)
             ctx.sample({'call': describe(c), 'expected': short(J(exp)), 'observed': short(obs)}, limit=12)
